@@ -104,7 +104,8 @@ def c12_oracle(case, obs):
         if c["done"] and ok(c["done"][1], 3):
             _, local, remote = c["done"][1]
             t_ok = c["done"][0]
-            m = [a for a in accepts if a["peer"] == local and c["step"] <= a["step"] <= t_ok]
+            dsth = c["host"] if not isinstance(c["dst"], dict) else c["dst"].get("h", c["dst"].get("name"))
+            m = [a for a in accepts if a["peer"] == local and a["host"] == dsth and c["step"] <= a["step"] <= t_ok]
             if len(m) != 1:
                 out.append(("connect %d (local %s) returned Ok at step %d but %d accepts name it as peer"
                             % (cid, local, t_ok, len(m)), None))
@@ -126,8 +127,7 @@ def c12_oracle(case, obs):
     if not small_eph:
         seen = {}
         for a in accepts:
-            key = (tuple(a["peer"]) if isinstance(a["peer"], list) else a["peer"])
-            key = str(a["peer"])
+            key = str((a["host"], a["peer"]))
             if key in seen:
                 out.append(("peer %s accepted twice (steps %d and %d)" % (a["peer"], seen[key], a["step"]), None))
             seen[key] = a["step"]
@@ -421,8 +421,10 @@ class Spec(PropSpec):
         cases = []
         for i in range(n):
             r = i % 10
-            if r < 5:
+            if r < 4:
                 cases.append(F.gen_handshake(ctx.rng))
+            elif r < 5:
+                cases.append(F.gen_backlog(ctx.rng))
             elif r < 7:
                 cases.append(F.gen_fifo(ctx.rng))
             elif r < 9:
